@@ -258,3 +258,34 @@ def judge_projection(run, sessions, res, limit=5):
                                                  "query/responses the library reader returns", "first difference at record": k,
                                                  "model": (exp[k] if k < len(exp) else "<none>")[:1500], "library": (got[k] if k < len(got) else "<none>")[:1500],
                                                  "counts": [len(exp), len(got)]}))
+
+
+def scale_check(run, seen, tag):
+    """one output with more than 65536 blocks (max_block_items = 1), and one query/response whose sections hold more than 65536
+    resource records / questions: counters, the library reader's view and the framing of the file (independent CBOR walk) must be
+    what the reference says.  (The Lean reader is not used here: it needs minutes on a file of 70 000 blocks.)"""
+    import cborgen, refexp
+    fp = {"maj": 1, "min": 0}
+    n = 65540
+    many_blocks = refexp.make_session(fp, [{"tps": 1000, "max": 1, "qrh": 4, "sigh": 0, "rrh": 0, "odh": 0}],
+                                      [("Q", {"cport": i % 65536}, None) for i in range(n)] + [("C",)], end_flush=False)
+    rr = (b"\x03www\x00", 1, 1, 300, b"\x0a\x00\x00\x01")
+    qq = (b"\x03www\x00", 1, 1, None, None)
+    long_lists = refexp.make_session(fp, [{"tps": 1000, "max": 10, "qrh": G.ALL_QRH, "sigh": G.ALL_SIGH, "rrh": 3, "odh": 3}],
+                                     [("Q", {"cport": 1, "ra": [rr] * 65600, "qq": [qq] * 70000}, None), ("Q", {"cport": 2, "ra": [rr] * 3}, None)])
+    sessions = [many_blocks, long_lists]
+    for s, r in zip(sessions, run_sessions(run, sessions, need_rd=True, need_lean=False)):
+        run.case(("scale", s[0][:80]), True, key=s[0][:200] + str(len(s[0]))); run.count("scale sessions")
+        bad = judge_returns(s, r) + judge_files(s, r, tag=tag)
+        if not bad and r["plain"] and r["plain"][0][0]:
+            data = r["plain"][0][0]
+            try:
+                top, end = cborgen.parse(data)
+                blocks = top.children[2].children
+                ok = end == len(data) and top.major == 4 and len(top.children) == 3 and all(b.major == 5 for b in blocks)
+                why = "" if ok else "not one file array of maps ending at the last byte"
+            except Exception as e:
+                ok, why = False, "not parseable as one CBOR item: %s" % e
+            if not ok:
+                bad.append((tag + ":scale-framing", {"why": why, "bytes": len(data)}))
+        record_failures(run, (s[0][:3000] + " ...", s[1], s[2]), bad, seen)
